@@ -353,7 +353,7 @@ def std_configs(tier, hists=("full",), stops=(2,), bss=(1, 2, 3, 20), small=Fals
               ("3d-h3", fmm_constants(3, 3, POOL_3D_H3[:5 if small else 6], bss=bss, stops=stops, hists=hists)),
               ("4d-h3", fmm_constants(4, 3, POOL_4D_H3[:4], bss=bss, stops=stops, hists=hists))]
     else:
-        cs = [("1d-h5", fmm_constants(1, 5, list(range(16))[:12], bss=bss + (5,), stops=stops, hists=hists)),
+        cs = [("1d-h5", fmm_constants(1, 5, list(range(16))[:11], bss=bss + (5,), stops=stops, hists=hists)),
               ("1d-h6", fmm_constants(1, 6, POOL_1D_H6, bss=bss, stops=stops, hists=hists)),
               ("2d-h4", fmm_constants(2, 4, POOL_2D_H4, bss=bss, stops=stops, hists=hists)),
               ("2d-h3", fmm_constants(2, 3, POOL_2D_H3[:12], bss=bss, stops=stops, hists=hists)),
@@ -371,9 +371,11 @@ def tree_constants(dim, height, pool, periodic=False, maxper=1, maxparts=None, b
 
 def run_fmm_configs(run, pid, configs, kinds=None, workers=1, parallel=2, cap=64, module="Fmm", shards=8):
     allpairs = []
+    if run.tier == "thorough":
+        shards, parallel = 16, 1
     def one(c):
         name, consts = c
-        return name, fmm_campaign(run, pid + "-" + name, consts, workers=workers, cap=cap, module=module, shards=shards)
+        return name, fmm_campaign(run, pid + "-" + name, consts, workers=workers, cap=cap, module=module, shards=shards, timeout=1500 if run.tier == "quick" else 5000)
     with ThreadPoolExecutor(max_workers=parallel) as ex:
         results = list(ex.map(one, configs))
     for name, (pairs, mism) in results:
